@@ -367,3 +367,12 @@ mod tests {
         assert_eq!(bytes.len(), len);
     }
 }
+
+// Verification hook (pass-through to the private header update; compiled
+// only with `--cfg rust_vmm_acpi_tables_verif`).
+#[cfg(rust_vmm_acpi_tables_verif)]
+impl VIOT {
+    pub fn verif_update_header(&mut self, sum: u8, len: u32) {
+        self.update_header(sum, len)
+    }
+}
